@@ -44,6 +44,9 @@ type azCase struct {
 	// Faults: one storage operation of some of the judged fetch calls fails (the only-if oracle
 	// must hold whatever storage does: a failed lookup must never count as an authorization)
 	Faults bool `json:"single_storage_faults,omitempty"`
+	// TokLife: the server passes WithMaximumServerLedActivationTokenLifetime with this non-positive value
+	// on every call: every token is past its lifetime the moment it exists ("" = default lifetime)
+	TokLife string `json:"maximum_token_lifetime,omitempty"`
 }
 
 type azNode struct {
@@ -98,6 +101,10 @@ func (w *azWorld) callOpts(extra ...nodeenrollment.Option) []nodeenrollment.Opti
 		}
 		o = append(o, nodeenrollment.WithRegistrationWrapper(w.s.RW), nodeenrollment.WithRegistrationWrapper(none))
 		w.c.R.Count("registration_wrapper_switched_off_by_a_later_option", 1)
+	}
+	if w.ac.TokLife != "" {
+		d, _ := time.ParseDuration(w.ac.TokLife)
+		o = append(o, nodeenrollment.WithMaximumServerLedActivationTokenLifetime(d))
 	}
 	o = append(o, extra...)
 	return o[:len(o):len(o)]
@@ -156,7 +163,10 @@ func (w *azWorld) operator() {
 			return
 		}
 		t := &azToken{id: id, str: tok, nonce: tokenBytes(tok)}
-		if w.rng.Intn(3) == 0 {
+		if w.ac.TokLife != "" {
+			t.expired = true
+			r.Count("token_under_non_positive_maximum_lifetime:"+w.ac.TokLife, 1)
+		} else if w.rng.Intn(3) == 0 {
 			// the server created it 15 days ago (default lifetime 14 days)
 			rec, err := types.LoadServerLedActivationToken(w.s.Ctx, w.s.Inner, id, w.s.StoreOpts()...)
 			if err != nil {
@@ -546,7 +556,7 @@ func runAuthz(c *engine.Ctx) engine.Result {
 		if !c.Quick() || i%8 == 0 {
 			be = []string{world.Inmem, world.File, world.StoreOnce}[i%3]
 		}
-		cases = append(cases, azCase{Backend: be, Wrap: i%4 == 1, Steps: steps, Seed: rng.Int63(), Faults: i%3 == 2})
+		cases = append(cases, azCase{Backend: be, Wrap: i%4 == 1, Steps: steps, Seed: rng.Int63(), Faults: i%3 == 2, TokLife: []string{"", "", "", "", "", "0s", "-1h"}[i%7]})
 	}
 	r.Sample(cases[0])
 	r.Sample(azFetch{Cert: "removed", Enc: "own", Nonce: "own", Wrapped: "none", Rewrapped: "match", WrapperOn: true})
